@@ -142,6 +142,18 @@ func storeLevel(c *vf.Ctx, id int, rng *rand.Rand, st *stats) bool {
 					rej("value-for-absent-key", w(), prt.VerifyValue(res.Proof, cm.cid.Hash, kp, []byte("x")))
 					// the absence proof must not verify for a present key
 					rej("absence-proof-for-present-key", w(), prt.VerifyAbsence(res.Proof, cm.cid.Hash, kpath(n, kv.K)))
+					// the same with the (unauthenticated) key field of the proof op rewritten to that present key
+					{
+						mp := &merkle.Proof{Ops: append([]merkle.ProofOp{}, res.Proof.Ops...)}
+						o := mp.Ops[0]
+						o.Key = append([]byte{}, kv.K...)
+						mp.Ops[0] = o
+						var err error
+						if pv := vf.Try(func() { err = prt.VerifyAbsence(mp, cm.cid.Hash, kpath(n, kv.K)) }); pv != nil {
+							err = fmt.Errorf("panic: %v", pv)
+						}
+						rej("absence-proof-relabelled-to-present-key", w(), err)
+					}
 				}
 				verify := func(p *merkle.Proof, root []byte, path string) (err error) {
 					if pv := vf.Try(func() {
